@@ -372,10 +372,38 @@ def replay_contract(contract, model, stubs, clause=None):
             conf = clause in failed
         else:
             conf = bool(failed)
-        return dict(confirmed=conf, failed=failed, observed=observed,
+        return dict(confirmed=conf, failed=failed, observed=observed, observed_kind=(kind, exc.__name__ if exc else None),
+                    observed_mro=[k.__name__ for k in exc.__mro__] if exc else [],
                     call=dict(target=contract.target, args=[_short(a) for a in rargs[:6]]))
     except Exception as ex:
         return dict(confirmed=None, detail="replay harness error: " + repr(ex), tb=traceback.format_exc())
+    finally:
+        undo()
+
+
+def engine_outcome(contract, model, stubs):
+    """the engine used as an INTERPRETER (no folding: every repository function is executed by the engine) on the
+    concrete inputs of a counter-model -> ("return", None) | ("raise", cls) | None when it cannot run them"""
+    from .engine import PyRaise, Undecided, PathCut, PathLimit, contains_sym
+    if hasattr(contract, "run") or hasattr(contract, "run_real"):
+        return None
+    undo = install_stubs(stubs)
+    try:
+        ctx = Ctx([], opts=dict(getattr(contract, "opts", {}) or {}, no_fold={contract.target}, no_fold_all=True))
+        CB = ConcreteBuilder(ctx, model or {})
+        args, kwargs, I = contract.inputs(CB)
+        if not CB.ok or any(contains_sym(a) for a in list(args) + list(kwargs.values())):
+            return None
+        f = resolve_target(contract.target)
+        try:
+            ctx.call_value(f, args, kwargs)
+            return ("return", None)
+        except PyRaise as e:
+            return ("raise", e.exc_cls)
+        except (Undecided, PathCut, PathLimit, NotImplementedError):
+            return None
+    except Exception:
+        return None
     finally:
         undo()
 
